@@ -51,13 +51,14 @@ var impWants = []impWant{
 	{dir: "align", pkg: "align",
 		funcs: []string{"SubstitutionMatrix.Get", "decideOnStep", "traceAlignmentSteps", "Global",
 			"argmax", "traceAlignmentStepsLocal", "Local"}},
-	{dir: "formats/fasta", pkg: "fasta", funcs: []string{"Fasta.Write"}, join: true},
-	{dir: "formats/fasta", pkg: "fastard", funcs: []string{"reader.read", "reader.iter"}, errZ: true},
-	{dir: "formats/fastq", pkg: "fastq", funcs: []string{"Fastq.Write"}, join: true},
-	{dir: "formats/fastq", pkg: "fastqrd", funcs: []string{"reader.read", "reader.iter"}, errZ: true, join: true},
-	{dir: "formats/sam", pkg: "sam", funcs: []string{"tagToText", "tagsToText", "SAM.Write", "splitTag", "parseTags", "parseInts", "parseLine"}, join: true, floatAs: "F"},
-	{dir: "formats/bed", pkg: "bed", funcs: []string{"BED.Write", "parseLine", "reader.read"}, join: true, errZ: true},
-	{dir: "formats/newick", pkg: "newick", funcs: []string{"quoted", "nameFromText", "nameToText", "Node.traverse", "Node.newick"}, floatAs: "F"},
+	{dir: "formats/fasta", pkg: "fasta", funcs: []string{"Fasta.Write", "Fasta.MarshalText"}, join: true},
+	{dir: "formats/fasta", pkg: "fastard", funcs: []string{"reader.read", "reader.iter", "Reader"}, errZ: true},
+	{dir: "formats/fastq", pkg: "fastq", funcs: []string{"Fastq.Write", "Fastq.MarshalText"}, join: true},
+	{dir: "formats/fastq", pkg: "fastqrd", funcs: []string{"reader.read", "reader.iter", "Reader"}, errZ: true, join: true},
+	{dir: "formats/sam", pkg: "sam", funcs: []string{"tagToText", "tagsToText", "SAM.Write", "SAM.MarshalText", "splitTag", "parseTags", "parseInts", "parseLine"}, join: true, floatAs: "F"},
+	{dir: "formats/smtext", pkg: "smtext", funcs: []string{"extractSingleChar"}},
+	{dir: "formats/bed", pkg: "bed", funcs: []string{"BED.Write", "BED.MarshalText", "parseLine", "reader.read", "Reader"}, join: true, errZ: true},
+	{dir: "formats/newick", pkg: "newick", funcs: []string{"quoted", "nameFromText", "nameToText", "Node.traverse", "Node.newick", "Node.MarshalText", "Node.Write"}, floatAs: "F"},
 	{dir: "formats/newick", pkg: "newickrd", funcs: []string{"reader.nextToken"}, errZ: true, floatAs: "F"},
 }
 
@@ -65,7 +66,11 @@ type impFn struct {
 	name   string
 	fuel   bool
 	stream bool // takes and returns the stream state rd__
+	sty    string // go_stream or go_scanner
+	recv   bool // ... and the reader object's record, after rd__
 	oracle bool // takes the float oracle o (strconv's parse / format tables)
+	iter   bool // an iterator constructor: the result is the list of yielded items (after rd__ when stream)
+	writer int  // index of the io.Writer parameter of a Write method (-1: none): the call returns (chunks, results)
 	out    int  // index of a []*int parameter (out-parameters): their final values are returned first (-1: none)
 	buf    int  // index of a *bytes.Buffer / *strings.Builder parameter whose new value is the result (-1: none)
 }
@@ -109,6 +114,9 @@ type impTr struct {
 	bufName  string
 	outName  string
 	tupleTys map[string]string
+	ioReader types.Object
+	calleeSty string
+	nparams  int
 	recv     string // the reader object's record (fields other than the bufio one), returned with rd__
 	results  *types.Tuple
 	loopVars []map[types.Object]bool
@@ -257,6 +265,7 @@ func (t *impTr) zero(ty types.Type) string {
 	if n, ok := ty.(*types.Named); ok {
 		if s, ok := n.Underlying().(*types.Struct); ok {
 			t.record(n)
+			s = withoutBufio(s)
 			parts := []string{"Imp_" + t.pkg + "_" + n.Obj().Name()}
 			for i := 0; i < s.NumFields(); i++ {
 				parts = append(parts, t.zero(s.Field(i).Type()))
@@ -962,7 +971,7 @@ func (t *impTr) call(e *ast.CallExpr, pre *[]opener) string {
 		if sig := f.Type().(*types.Signature); sig.Recv() != nil && isBuilder(sig.Recv().Type()) {
 			sel := e.Fun.(*ast.SelectorExpr)
 			switch f.Name() {
-			case "String":
+			case "String", "Bytes":
 				return t.ex(sel.X, pre)
 			case "Len":
 				return "(go_len " + t.ex(sel.X, pre) + ")"
@@ -989,9 +998,54 @@ func (t *impTr) call(e *ast.CallExpr, pre *[]opener) string {
 		switch obj.Pkg().Path() + "." + obj.Name() {
 		case "slices.Clone":
 			return t.ex(e.Args[0], pre)
+		case "bytes.NewBuffer":
+			if id, ok := e.Args[0].(*ast.Ident); ok && id.Name == "nil" {
+				return "(@nil N)"
+			}
+			return t.ex(e.Args[0], pre)
 		case "bytes.HasPrefix":
 			return fmt.Sprintf("(is_prefix %s %s)", t.ex(e.Args[1], pre), t.ex(e.Args[0], pre))
 		}
+	}
+	if obj != nil && obj.Name() == "newReader" && t.ioReader != nil && len(e.Args) == 1 {
+		if id, ok := e.Args[0].(*ast.Ident); ok && t.info.Uses[id] == t.ioReader {
+			// newReader(r): the reader object around the stream; its own fields start at zero
+			return t.zero(t.typeOf(e))
+		}
+	}
+	if fn, ok := t.fns[obj]; ok && fn.writer >= 0 {
+		// x.Write(buf) with a *bytes.Buffer: the chunks are appended to the buffer; the value is the result
+		args := []string{}
+		if fn.fuel {
+			t.fuel = true
+			args = append(args, "fuel")
+		}
+		if fn.oracle {
+			args = append(args, "o")
+		}
+		idx := fn.writer
+		if sel, ok := e.Fun.(*ast.SelectorExpr); ok {
+			if s, ok := t.info.Selections[sel]; ok && s.Kind() == types.MethodVal {
+				args = append(args, t.ex(sel.X, pre))
+				idx--
+			}
+		}
+		var wr ast.Expr
+		for i, a := range e.Args {
+			if i == idx {
+				wr = a
+				continue
+			}
+			args = append(args, t.ex(a, pre))
+		}
+		if wr == nil || !isBuilder(t.typeOf(wr)) {
+			t.fail(e, "a Write method called with something other than a buffer")
+		}
+		b := t.ex(wr, pre)
+		ch, v := t.fresh(), t.fresh()
+		*pre = append(*pre, opener{fmt.Sprintf("go_call (%s %s) (fun '(%s, %s) => ", fn.name, strings.Join(args, " "), ch, v), ")"})
+		t.store(wr, fmt.Sprintf("(%s ++ concat %s)", b, ch), pre)
+		return v
 	}
 	if fn, ok := t.fns[obj]; ok {
 		args := []string{}
@@ -1105,11 +1159,34 @@ func (t *impTr) assigned(n ast.Node) ([]types.Object, int) {
 				if t.writer != nil && o.Pkg() != nil && o.Pkg().Path() == "fmt" && o.Name() == "Fprintf" {
 					yields |= 1
 				}
+				if t.writer != nil && o.Name() == "Write" {
+					if sel, ok := s.Fun.(*ast.SelectorExpr); ok {
+						if id, ok := sel.X.(*ast.Ident); ok && t.info.Uses[id] == t.writer {
+							yields |= 1
+						}
+					}
+				}
 				if t.stream && isBufioMethod(o) {
 					yields |= 2
 				}
 				if fn, ok := t.fns[o]; ok && fn.stream {
 					yields |= 2
+					if fn.recv {
+						if sel, ok := s.Fun.(*ast.SelectorExpr); ok {
+							add(sel.X)
+						}
+					}
+				}
+				if fn, ok := t.fns[o]; ok && fn.writer >= 0 {
+					idx := fn.writer
+					if sel, ok := s.Fun.(*ast.SelectorExpr); ok {
+						if sl, ok := t.info.Selections[sel]; ok && sl.Kind() == types.MethodVal {
+							idx--
+						}
+					}
+					if idx >= 0 && idx < len(s.Args) {
+						add(s.Args[idx])
+					}
 				}
 				if fn, ok := t.fns[o]; ok && fn.buf >= 0 {
 					idx := fn.buf
@@ -1738,6 +1815,18 @@ func (t *impTr) assign(s *ast.AssignStmt, pre *[]opener) {
 				return
 			}
 		}
+		if sel, ok := call.Fun.(*ast.SelectorExpr); ok && t.writer != nil && sel.Sel.Name == "Write" && len(s.Lhs) == 2 {
+			if id, ok := sel.X.(*ast.Ident); ok && t.info.Uses[id] == t.writer {
+				x := t.ex(call.Args[0], pre)
+				noErr := "false"
+				if t.errZ {
+					noErr = "0%Z"
+				}
+				*pre = append(*pre, opener{fmt.Sprintf("(let out__ := out__ ++ [%s] in ", x), ")"})
+				t.store(s.Lhs[1], noErr, pre)
+				return
+			}
+		}
 		if o := t.calleeObj(call.Fun); o != nil && o.Pkg() != nil && o.Pkg().Path() == "fmt" && o.Name() == "Fprintf" {
 			if id, ok := s.Lhs[0].(*ast.Ident); !ok || id.Name != "_" || len(s.Lhs) != 2 {
 				t.fail(s, "the byte count of Fprintf is used")
@@ -1761,6 +1850,19 @@ func (t *impTr) assign(s *ast.AssignStmt, pre *[]opener) {
 		if fn.stream {
 			args = append(args, "rd__")
 		}
+		var recvX ast.Expr
+		if fn.recv {
+			sel, ok := call.Fun.(*ast.SelectorExpr)
+			if !ok {
+				t.fail(s, "a reader method called without a receiver")
+			}
+			recvX = sel.X
+			args = append(args, t.ex(recvX, pre))
+		} else if sel, ok := call.Fun.(*ast.SelectorExpr); ok && !fn.stream {
+			if sl, ok := t.info.Selections[sel]; ok && sl.Kind() == types.MethodVal {
+				args = append(args, t.ex(sel.X, pre))
+			}
+		}
 		for _, a := range call.Args {
 			args = append(args, t.ex(a, pre))
 		}
@@ -1769,7 +1871,13 @@ func (t *impTr) assign(s *ast.AssignStmt, pre *[]opener) {
 			tmps = append(tmps, t.fresh())
 		}
 		if fn.stream {
-			*pre = append(*pre, opener{fmt.Sprintf("go_call (%s %s) (fun '(rd__, (%s)) => ", fn.name, strings.Join(args, " "), strings.Join(tmps, ", ")), ")"})
+			if fn.recv {
+				rv := t.fresh()
+				*pre = append(*pre, opener{fmt.Sprintf("go_call (%s %s) (fun '(rd__, %s, (%s)) => ", fn.name, strings.Join(args, " "), rv, strings.Join(tmps, ", ")), ")"})
+				t.store(recvX, rv, pre)
+			} else {
+				*pre = append(*pre, opener{fmt.Sprintf("go_call (%s %s) (fun '(rd__, (%s)) => ", fn.name, strings.Join(args, " "), strings.Join(tmps, ", ")), ")"})
+			}
 			for i, l := range s.Lhs {
 				t.store(l, tmps[i], pre)
 			}
@@ -1820,6 +1928,54 @@ func (t *impTr) rangeStmt(s *ast.RangeStmt, rest func() string) string {
 	objs, yields := t.assigned(s.Body)
 	state := t.tuple(objs, yields)
 	var pre []opener
+	if call, ok := s.X.(*ast.CallExpr); ok {
+		if fn, ok := t.fns[t.calleeObj(call.Fun)]; ok && fn.iter {
+			// for a, b := range it(): all items of the translated iterator, then the loop over them
+			// (the same items in the same order as long as the consumer of it() never stops it,
+			// and a break only means the remaining items are dropped)
+			args := []string{}
+			if fn.fuel {
+				t.fuel = true
+				args = append(args, "fuel")
+			}
+			if fn.oracle {
+				args = append(args, "o")
+			}
+			if fn.stream {
+				args = append(args, "rd__")
+			}
+			if sel, ok := call.Fun.(*ast.SelectorExpr); ok && fn.recv {
+				args = append(args, t.ex(sel.X, &pre))
+			}
+			for _, a := range call.Args {
+				args = append(args, t.ex(a, &pre))
+			}
+			items := t.fresh()
+			patIt := items
+			if fn.stream {
+				patIt = "'(rd__, " + items + ")"
+				yields |= 2
+				state = t.tuple(objs, yields)
+			}
+			nm := func(e ast.Expr) string {
+				if e == nil {
+					return "_"
+				}
+				id := e.(*ast.Ident)
+				if id.Name == "_" {
+					return "_"
+				}
+				return t.nameOf(t.info.Defs[id])
+			}
+			elem := nm(s.Key)
+			if s.Value != nil {
+				elem = "'(" + nm(s.Key) + ", " + nm(s.Value) + ")"
+			}
+			body := t.block(s.Body.List, "Next "+state, &loopCtx{state: state})
+			loop := fmt.Sprintf("go_range %s (fun _ %s %s => %s) %s", items, elem, pat(state), body, state)
+			return wrapOpeners(pre, fmt.Sprintf("go_call (%s %s) (fun %s => after (%s) (fun %s => %s))", fn.name, strings.Join(args, " "), patIt, loop, pat(state), rest()))
+		}
+	}
 	x := t.ex(s.X, &pre)
 	name := func(e ast.Expr) string {
 		if e == nil {
@@ -2113,11 +2269,14 @@ func (t *impTr) function(fd *ast.FuncDecl, coqName string) *impFn {
 	t.fnName = fd.Name.Name
 	var params []string
 	t.stream = false
+	t.ioReader = nil
+	t.nparams = 0
 	t.recv = ""
 	t.bufName = ""
 	t.outName = ""
 	// pre-scan: recursion, float formatting
 	t.self = t.info.Defs[fd.Name]
+	t.calleeSty = "go_stream"
 	t.oracle = false
 	recursive := false
 	ast.Inspect(fd.Body, func(n ast.Node) bool {
@@ -2135,10 +2294,13 @@ func (t *impTr) function(fd *ast.FuncDecl, coqName string) *impFn {
 			if fn, ok := t.fns[o]; ok && fn.oracle {
 				t.oracle = true
 			}
+			if fn, ok := t.fns[o]; ok && fn.stream {
+				t.calleeSty = fn.sty
+			}
 		}
 		return true
 	})
-	t.selfFn = &impFn{name: coqName, fuel: recursive, oracle: t.oracle, buf: -1, out: -1}
+	t.selfFn = &impFn{name: coqName, fuel: recursive, oracle: t.oracle, buf: -1, out: -1, writer: -1}
 	if recursive {
 		t.fuel = true
 		t.fns[t.self] = t.selfFn
@@ -2146,7 +2308,18 @@ func (t *impTr) function(fd *ast.FuncDecl, coqName string) *impFn {
 	addParam := func(n *ast.Ident) {
 		o := t.info.Defs[n]
 		if o.Type().String() == "io.Writer" {
+			t.selfFn.writer = t.nparams
+			t.nparams++
 			return // the writer is the list of emitted chunks
+		}
+		defer func() { t.nparams++ }()
+		if o.Type().String() == "io.Reader" {
+			// the reader is wrapped by newReader / bufio.NewReader: the threaded stream state
+			t.stream = true
+			t.streamTy = t.calleeSty
+			t.ioReader = o
+			params = append(params, "(rd__ : "+t.streamTy+")")
+			return
 		}
 		if isBuilder(o.Type()) {
 			t.bufName = t.nameOf(o)
@@ -2320,6 +2493,9 @@ func (t *impTr) function(fd *ast.FuncDecl, coqName string) *impFn {
 	fn := t.selfFn
 	fn.fuel = t.fuel
 	fn.stream = t.stream
+	fn.sty = t.streamTy
+	fn.iter = t.yield != nil
+	fn.recv = t.recv != ""
 	fuel := ""
 	if fn.fuel {
 		fuel = "(fuel : nat) "
@@ -2337,6 +2513,9 @@ func (t *impTr) function(fd *ast.FuncDecl, coqName string) *impFn {
 
 func genImp(repo, out string) {
 	defer func() {
+		if os.Getenv("VERIF_DEBUG") != "" {
+			return
+		}
 		if r := recover(); r != nil {
 			fmt.Fprintln(os.Stderr, "gen-imp: cannot translate:", r)
 			os.Exit(1)
